@@ -6,6 +6,7 @@ import (
 	"go/constant"
 	"go/token"
 	"go/types"
+	"golang.org/x/tools/go/packages"
 	"runtime"
 	"sort"
 	"sync"
@@ -91,9 +92,37 @@ func resolveCodec(a *A, rule string) *codec {
 		return nil
 	}
 	a.touch(cd.valFn, cd.lenFn, rows)
-	// constant tables: package-level slices of ints initialised by a literal and never written
-	for _, f := range w.ReplP.Syntax {
+	// constant tables: package-level slices/arrays/maps initialised by a literal of constants and never written
+	for g, t := range constTablesOf(w, w.ReplP, w.Repl) {
+		cd.tables[g] = t
+	}
+	return cd
+}
+
+// constTablesOf: the package-level variables of pkg that are lookup tables - a slice, array or map of constants written as
+// a composite literal, never stored to, never element-assigned, never handed to anything that could write it.
+func constTablesOf(w *World, pp *packages.Package, pkg *ssa.Package) map[*ssa.Global]*constTable {
+	out := map[*ssa.Global]*constTable{}
+	zeroOf := func(t types.Type) constant.Value {
+		b, ok := t.Underlying().(*types.Basic)
+		if !ok {
+			return nil
+		}
+		switch {
+		case b.Info()&types.IsInteger != 0:
+			return constant.MakeInt64(0)
+		case b.Info()&types.IsString != 0:
+			return constant.MakeString("")
+		case b.Info()&types.IsBoolean != 0:
+			return constant.MakeBool(false)
+		}
+		return nil
+	}
+	for _, f := range pp.Syntax {
 		ast.Inspect(f, func(n ast.Node) bool {
+			if _, isFn := n.(*ast.FuncDecl); isFn {
+				return false
+			}
 			vs, ok := n.(*ast.ValueSpec)
 			if !ok || len(vs.Names) != 1 || len(vs.Values) != 1 {
 				return true
@@ -102,53 +131,140 @@ func resolveCodec(a *A, rule string) *codec {
 			if !ok {
 				return true
 			}
-			g := w.Repl.Var(vs.Names[0].Name)
+			g := pkg.Var(vs.Names[0].Name)
 			if g == nil {
 				return true
 			}
-			sl, ok := g.Type().(*types.Pointer).Elem().Underlying().(*types.Slice)
-			if !ok || !isIntegerType(sl.Elem()) {
-				return true
-			}
 			t := &constTable{name: g.Name()}
-			for _, e := range lit.Elts {
-				tv := w.ReplP.TypesInfo.Types[e]
-				if tv.Value == nil {
+			okAll := true
+			switch u := g.Type().(*types.Pointer).Elem().Underlying().(type) {
+			case *types.Slice, *types.Array:
+				var et types.Type
+				n := int64(-1)
+				if sl, isS := u.(*types.Slice); isS {
+					et = sl.Elem()
+				} else {
+					et = u.(*types.Array).Elem()
+					n = u.(*types.Array).Len()
+				}
+				t.zero = zeroOf(et)
+				if t.zero == nil {
 					return true
 				}
-				t.vals = append(t.vals, tv.Value)
+				next := int64(0)
+				vals := map[int64]constant.Value{}
+				max := int64(-1)
+				for _, e := range lit.Elts {
+					val := e
+					if kv, isKV := e.(*ast.KeyValueExpr); isKV {
+						ktv := pp.TypesInfo.Types[kv.Key]
+						k, isInt := constant.Int64Val(ktv.Value)
+						if ktv.Value == nil || !isInt {
+							okAll = false
+							break
+						}
+						next, val = k, kv.Value
+					}
+					tv := pp.TypesInfo.Types[val]
+					if tv.Value == nil {
+						okAll = false
+						break
+					}
+					vals[next] = tv.Value
+					if next > max {
+						max = next
+					}
+					next++
+				}
+				if n < 0 {
+					n = max + 1
+				}
+				if !okAll || n > 1<<16 {
+					return true
+				}
+				t.vals = make([]constant.Value, n)
+				for k, v := range vals {
+					if k >= 0 && k < n {
+						t.vals[k] = v
+					}
+				}
+				for i := range t.vals {
+					if t.vals[i] == nil {
+						t.vals[i] = t.zero
+					}
+				}
+			case *types.Map:
+				t.isM, t.m = true, map[string]constant.Value{}
+				t.zero = zeroOf(u.Elem())
+				if t.zero == nil || zeroOf(u.Key()) == nil {
+					return true
+				}
+				for _, e := range lit.Elts {
+					kv, isKV := e.(*ast.KeyValueExpr)
+					if !isKV {
+						okAll = false
+						break
+					}
+					ktv, vtv := pp.TypesInfo.Types[kv.Key], pp.TypesInfo.Types[kv.Value]
+					if ktv.Value == nil || vtv.Value == nil {
+						okAll = false
+						break
+					}
+					t.m[ktv.Value.ExactString()] = vtv.Value
+				}
+				if !okAll {
+					return true
+				}
+			default:
+				return true
 			}
-			if tableIsConstant(w, g) {
-				cd.tables[g] = t
+			if tableIsConstant(w, pkg, g) {
+				out[g] = t
 			}
 			return true
 		})
 	}
-	return cd
+	return out
 }
 
-// tableIsConstant: the global is stored only by the package initialiser and no
-// element address of it is ever written.
-func tableIsConstant(w *World, g *ssa.Global) bool {
+// tableIsConstant: the global is stored only by the package initialiser, no element of it is ever written, and it is not
+// handed to anything that could write it.
+func tableIsConstant(w *World, pkg *ssa.Package, g *ssa.Global) bool {
 	ok := true
-	for _, f := range w.srcFuncs(w.Repl) {
+	isG := func(v ssa.Value) bool {
+		if v == ssa.Value(g) {
+			return true
+		}
+		u, isU := v.(*ssa.UnOp)
+		return isU && u.X == ssa.Value(g)
+	}
+	for _, f := range w.srcFuncs(pkg) {
 		instrs(f, func(in ssa.Instruction) {
 			switch x := in.(type) {
 			case *ssa.Store:
 				if x.Addr == ssa.Value(g) && f.Name() != "init" {
 					ok = false
 				}
-				if ia, isIA := x.Addr.(*ssa.IndexAddr); isIA {
-					if u, isU := ia.X.(*ssa.UnOp); isU && u.X == ssa.Value(g) {
-						ok = false
-					}
+				if ia, isIA := x.Addr.(*ssa.IndexAddr); isIA && isG(ia.X) && f.Name() != "init" {
+					ok = false
+				}
+				if isG(x.Val) {
+					ok = false // the table itself is stored somewhere
+				}
+			case *ssa.MapUpdate:
+				if isG(x.Map) && f.Name() != "init" {
+					ok = false
 				}
 			case *ssa.Call:
 				// passed to something that may write it
 				for _, arg := range x.Common().Args {
-					if u, isU := arg.(*ssa.UnOp); isU && u.X == ssa.Value(g) && !isBuiltin(x.Common(), "len") {
+					if isG(arg) && !isBuiltin(x.Common(), "len") {
 						ok = false
 					}
+				}
+			case *ssa.Slice:
+				if isG(x.X) && x.X == ssa.Value(g) {
+					ok = false // an array table re-sliced: the slice could be written through
 				}
 			}
 		})
